@@ -34,7 +34,7 @@ def cases(tier, seed):
     fac = {'sym': SYMS, 'dtype': ['real', 'complex'], 'n_style': ['zero', 'random'], 'rank': [2, 3, 4]}
     for k in range(L):
         fac[f'op{k}'] = OPS
-    reps = 1 if tier == 'quick' else 2
+    reps = 1 if tier == 'quick' else 10
     for rep in range(reps):
         for i, row in enumerate(cat.covering(fac, seed=seed * 29 + rep, strength=2 if tier == 'quick' else 2, extra=0 if tier == 'quick' else 600)):
             c = dict(row)
